@@ -745,11 +745,11 @@ func main() {
 
 	// 1. corpus, 2. exhaustive (base, extended), 3. random
 	jobs <- corpus
-	// 1'. long patterns: a defect placed behind byte 255, 4095, 65535 of an otherwise plain name (and
+	// 1'. long patterns: a defect placed behind byte 255 ... 4096 of an otherwise plain name (and
 	// the same names without a defect)
 	{
 		var long []string
-		for _, n := range []int{250, 254, 255, 256, 300, 4090, 4096, 65530, 65536} {
+		for _, n := range []int{250, 254, 255, 256, 300, 1000, 4090, 4096} {
 			base := "releases/" + strings.Repeat("x", n)
 			for _, tail := range []string{"", "*+", "y[]", "y[b-a]", "y z", "y~", "y\\", "/", "y?+", "\ny"} {
 				long = append(long, base+tail)
